@@ -346,3 +346,39 @@ fn c14_readding_a_known_node_refreshes_last_seen() {
     kani::cover!(age > STALE_MS && ip3 & 1 == 0);
     core::mem::forget(t);
 }
+
+// ---- helpers for harnesses of other modules (the statistics fields are private) ---------------
+pub(crate) fn stats(t: &RoutingTable) -> (usize, f64, usize, f64, usize) {
+    (t.dht_size_estimates_count, t.dht_size_estimates_sum, t.responders_samples_count, t.responders_size_estimates_sum, t.responders_subnets_sum)
+}
+pub(crate) fn set_stats(t: &mut RoutingTable, s: (usize, f64, usize, f64, usize)) {
+    t.dht_size_estimates_count = s.0;
+    t.dht_size_estimates_sum = s.1;
+    t.responders_samples_count = s.2;
+    t.responders_size_estimates_sum = s.3;
+    t.responders_subnets_sum = s.4;
+}
+pub(crate) fn place_pub(t: &mut RoutingTable, n: Node) {
+    place(t, n)
+}
+
+/// increments and decrements of the statistics are exact inverses and never underflow when paired
+#[kani::proof]
+fn c20_increment_then_decrement_restores_the_statistics() {
+    let mut t = RoutingTable::new(idb(0, 0, 0));
+    let c0: usize = kani::any();
+    let r0: usize = kani::any();
+    let sn0: usize = kani::any();
+    kani::assume(c0 < 100_000 && r0 < 100_000 && sn0 < 10_000_000);
+    let (a, b): (u16, u16) = (kani::any(), kani::any());
+    set_stats(&mut t, (c0, a as f64, r0, b as f64, sn0));
+    let (d, r, s): (u16, u16, u8) = (kani::any(), kani::any(), kani::any());
+    t.increment_responders_stats(d as f64, r as f64, s);
+    assert!(stats(&t) == (c0 + 1, a as f64 + d as f64, r0 + 1, b as f64 + r as f64, sn0 + s as usize));
+    t.decrement_responders_stats(d as f64, r as f64, s);
+    assert!(stats(&t) == (c0, a as f64, r0, b as f64, sn0), "C20: decrement_responders_stats undoes increment_responders_stats");
+    t.increment_dht_size_estimate(d as f64);
+    assert!(stats(&t) == (c0 + 1, a as f64 + d as f64, r0, b as f64, sn0));
+    t.decrement_dht_size_estimate(d as f64);
+    assert!(stats(&t) == (c0, a as f64, r0, b as f64, sn0), "C20: decrement_dht_size_estimate undoes increment_dht_size_estimate");
+}
